@@ -7,7 +7,9 @@ Implementation side (working tree): a valid metadata document is turned into a r
   must give back an equal object;
 * zarr attributes: `write` into a v2 and a v3 group that already carries foreign attributes (and
   sometimes a stale `geff`), `read` back — equal object, foreign attributes untouched; a sample
-  also goes through a directory store and `geff info`;
+  also goes through a directory store and `geff info`; multi-step store histories (write m1, then
+  read / clear fields / write back, or write a minimal or otherwise different m2 over it) must read
+  back exactly the object written last;
 * the dump (`{"geff": dump}`) must validate against the published `geff-schema.json`
   (`jsonschema`, Draft 2020-12) — and the Lean evaluator `validates` must agree;
 * single structural mutations of the dump (dropped key, wrong JSON type, bad enum / pattern /
@@ -268,6 +270,39 @@ def impl_obs(case):
                 zp.append({"fmt": fmt, "what": "foreign attributes changed", "attrs": mc.canon(mc.enc(rest))})
         except Exception as e:  # noqa: BLE001
             zp.append({"fmt": fmt, "exc": f"{type(e).__name__}: {str(e)[:200]}"})
+    # multi-step store histories: write m1, then write m2 over it; reading must return exactly m2
+    rw = []
+    for vi, var in enumerate(case.get("rewrite", [])):
+        for fmt in (2, 3):
+            try:
+                store = MemoryStore()
+                g = zarr.open_group(store, mode="w", zarr_format=fmt)
+                if foreign:
+                    g.attrs.update(foreign)
+                obj.write(store)
+                if var["how"] == "clear":
+                    m2 = GeffMetadata.read(store)          # read -> clear fields by assignment -> write back
+                    for fld in var["fields"]:
+                        setattr(m2, fld, None)
+                else:
+                    m2 = GeffMetadata.model_validate(var["doc"])
+                m2.write(store)
+                back = GeffMetadata.read(store)
+                attrs = dict(zarr.open_group(store, mode="r").attrs)
+                want = mc.canon(mc.enc(m2.model_dump()))
+                got = mc.canon(mc.enc(back.model_dump()))
+                if got != want:
+                    diff = sorted(k for k in mc.FIELD_NAMES if dict(map(tuple, got["o"])).get(k) != dict(map(tuple, want["o"])).get(k))
+                    rw.append({"fmt": fmt, "variant": var, "what": "rewrite: read after the second write is not the second object",
+                               "fields_differing": diff, "read_back": got, "written": want})
+                rest = {k: v for k, v in attrs.items() if k != "geff"}
+                if mc.canon(mc.enc(rest)) != mc.canon(mc.enc(foreign)):
+                    rw.append({"fmt": fmt, "variant": var, "what": "rewrite: foreign attributes changed"})
+                _form(forms, f"zarr v{fmt} stored bytes after rewrite #{vi} ({var['how']})",
+                      _raw_attrs_memory(store, fmt).get("geff"), mc.canon(mc.enc(m2.model_dump(mode="json"))))
+            except Exception as e:  # noqa: BLE001
+                rw.append({"fmt": fmt, "variant": var, "exc": f"{type(e).__name__}: {str(e)[:200]}"})
+    obs["rewrite"] = rw
     if case.get("disk"):
         try:
             from geff._cli import app
@@ -455,6 +490,14 @@ def judge(ck, case, im):
                else "C08:zarr-attrs-roundtrip")
         ck.fail(key, f"zarr attributes (format {p.get('fmt')}): {p.get('what') or p.get('exc')}", case, p, "equal object, foreign attributes preserved")
         break
+    for p in im.get("rewrite", []):
+        what = p.get("what", "")
+        key = "C08:foreign-attrs-changed" if "foreign" in what else "C08:rewrite-keeps-stale-fields" if "rewrite" in what \
+            else "C08:zarr-attrs-roundtrip"
+        ck.fail(key, f"zarr attributes (format {p.get('fmt')}), write m1 then {p['variant']['how']} and write again: "
+                     f"{what or p.get('exc')}" + (f" (fields {p['fields_differing']})" if p.get("fields_differing") else ""),
+                case, p, "read returns exactly the object written last; foreign attributes preserved")
+        break
     for f in im.get("forms", []):
         if not f["valid"]:
             ck.fail("C08:serialised-form-fails-published-schema",
@@ -490,11 +533,24 @@ def run(ck: common.Check):
     docs = exhaustive_presence() + units_and_types()
     nrand = 700 if ck.quick else 9000
     docs += [mc.gen_doc(ck.rng) for _ in range(nrand)]
+    clearable = ["axes", "sphere", "ellipsoid", "track_node_props", "related_objects", "display_hints"]
+
+    def rewrites(d):
+        some = [f for f in clearable if ck.rng.random() < 0.5] or [ck.rng.choice(clearable)]
+        if "axes" not in some and d.get("display_hints") is not None and "display_hints" not in some:
+            pass  # hints stay valid when the axes stay
+        return [{"how": "clear", "fields": clearable},
+                {"how": "clear", "fields": sorted(some, key=clearable.index)},
+                {"how": "overwrite", "doc": {"directed": not d["directed"], "node_props_metadata": {}, "edge_props_metadata": {}}},
+                {"how": "overwrite", "doc": {**{k: v for k, v in d.items() if k != "geff_version"}, "extra": mc.gen_extra(ck.rng)}},
+                {"how": "overwrite", "doc": {**d, "extra": {}}}]
+
     for i, d in enumerate(docs):
         foreign = mc.gen_extra(ck.rng) if ck.rng.random() < 0.7 else {}
         foreign.pop("geff", None)
         cases.append({"doc": d, "foreign": foreign, "via": ("validate", "kwargs", "json")[i % 3], "stale": i % 5 == 0,
                       "disk": i % (60 if ck.quick else 120) == 7 or (_nonfinite(d) and i % 4 == 0),
+                      "rewrite": rewrites(d) if i % 3 == 0 else [],
                       "mut_idx": [ck.rng.randrange(10 ** 6) for _ in range(nmut)]})
     # the first documents get *all* their mutations
     for c in cases[: (5 if ck.quick else 40)]:
@@ -544,6 +600,7 @@ def run(ck: common.Check):
     ck.extra["mutations_judged"] = nm
     ck.extra["serialised_forms_judged"] = sum(len(im.get("forms", [])) for im in impl)
     ck.extra["documents_with_nonfinite_axis_values"] = sum(1 for c in cases if "doc" in c and _nonfinite(c["doc"]))
+    ck.extra["store_rewrite_histories"] = 2 * sum(len(c.get("rewrite", [])) for c in cases)
     ck.extra["documents_through_disk_and_cli"] = sum(1 for c in cases if c.get("disk"))
     if model is not None:
         for (idx, kind, mi), mo in zip(owners, model):
